@@ -26,7 +26,13 @@ def rand_step(rng, ncallers, allow_drop=True):
     x = rng.random()
     if x < 0.27:
         c = rng.randrange(ncallers)
-        if rng.random() < 0.35:
+        y = rng.random()
+        if y < 0.12:
+            # typed command list through Client::command_list (positions: sticker get, update, addid, channels, sticker get, update)
+            if rng.random() < 0.7:
+                return {"op": "issue", "c": c, "kind": "tlist", "cmds": [{} for _ in range(rng.randint(1, 6))]}
+            return {"op": "issue", "c": c, "kind": "tvec", "cmds": [{} for _ in range(rng.randint(1, 5))]}
+        if y < 0.4:
             return {"op": "issue", "c": c, "kind": "list", "cmds": rand_cmds(rng, 4)}
         return {"op": "issue", "c": c, "kind": "raw", "cmds": rand_cmds(rng, 1)}
     if x < 0.62:
@@ -165,7 +171,35 @@ def art(rng, run):
     return {"run": run, "cfg": cfg, "batches": batches}
 
 
-PROFILES = {"base": base, "faults": faults, "handshake": handshake, "art": art}
+def tlists(rng, run):
+    """Mostly typed command lists (tuples of arity 1..6, vectors) through Client::command_list, with concurrent raw requests and notifications."""
+    nc = rng.choice([1, 2])
+    cfg = {"callers": nc, "split_seed": rng.getrandbits(48) | 1}
+    if rng.random() < 0.2:
+        cfg["max_write"] = rng.choice([3, 8, 20])
+    batches = []
+    for _ in range(rng.randint(4, 12)):
+        b = []
+        for _ in range(rng.choice([1, 1, 2])):
+            x = rng.random()
+            if x < 0.35:
+                if rng.random() < 0.7:
+                    b.append({"op": "issue", "c": rng.randrange(nc), "kind": "tlist", "cmds": [{} for _ in range(rng.randint(1, 6))]})
+                else:
+                    b.append({"op": "issue", "c": rng.randrange(nc), "kind": "tvec", "cmds": [{} for _ in range(rng.randint(1, 5))]})
+            elif x < 0.45:
+                b.append({"op": "issue", "c": rng.randrange(nc), "kind": "list", "cmds": rand_cmds(rng, 3)})
+            elif x < 0.8:
+                b.append({"op": "deliver"} if rng.random() < 0.5 else {"op": "deliver", "units": rng.randint(1, 6)})
+            elif x < 0.9:
+                b.append({"op": "change", "subs": rng.sample(SUBS, rng.choice([1, 2]))})
+            else:
+                b.append({"op": "timeout"})
+        batches.append(b)
+    return {"run": run, "cfg": cfg, "batches": batches}
+
+
+PROFILES = {"base": base, "faults": faults, "handshake": handshake, "art": art, "tlists": tlists}
 
 
 def generate(profile, n, seed, start=0):
